@@ -92,6 +92,7 @@ type Op struct {
 	Tools []string  `json:"tools,omitempty"`
 	Key   []byte    `json:"key,omitempty"`
 	H     int       `json:"h,omitempty"`
+	Peek  int       `json:"peek,omitempty"` // reopen: a read-only session first (1: its first call is Stat, 2: a scan)
 }
 
 func (p *Plan) JSON() []byte {
